@@ -378,8 +378,19 @@ def _inline_new_helpers(tree, ref_funcs, done):
         # helper locals that clash with names of the caller get a suffix
         caller_names = _all_names(caller)
         mapping = {}
+        # the helper's local that carries the result may keep its name when that name is the very target of the call and the caller
+        # binds it nowhere else (extracting `xs = []; for ..: xs.append(..)` into `xs = helper()` keeps the name `xs` in both)
+        same_as_target = None
+        if isinstance(stmt, ast.Assign) and isinstance(stmt.targets[0], ast.Name):
+            tn = stmt.targets[0].id
+            other_stores = [x for x in ast.walk(caller) if isinstance(x, ast.Name) and x.id == tn and isinstance(x.ctx, (ast.Store, ast.Del))
+                            and x is not stmt.targets[0]]
+            early_loads = [x for x in ast.walk(caller) if isinstance(x, ast.Name) and x.id == tn and isinstance(x.ctx, ast.Load)
+                           and getattr(x, 'lineno', 0) < stmt.lineno]
+            if not other_stores and not early_loads:
+                same_as_target = tn
         for nm in stored - set(params):
-            if nm in caller_names:
+            if nm in caller_names and nm != same_as_target:
                 mapping[nm] = nm + '__inl'
         pre = []
         for p_, arg in bind.items():
@@ -405,7 +416,8 @@ def _inline_new_helpers(tree, ref_funcs, done):
             val = rets[0].value if rets[0].value is not None else ast.Constant(value=None)
             new += body[:-1]
             if isinstance(stmt, ast.Assign):
-                new.append(ast.Assign(targets=[copy.deepcopy(stmt.targets[0])], value=val))
+                if ast.unparse(stmt.targets[0]) != ast.unparse(val):
+                    new.append(ast.Assign(targets=[copy.deepcopy(stmt.targets[0])], value=val))
             else:
                 new.append(ast.Expr(value=val))
         else:
@@ -421,11 +433,15 @@ def _inline_new_helpers(tree, ref_funcs, done):
                 inner.append(ast.Assign(targets=[copy.deepcopy(stmt.targets[0])], value=ast.Constant(value=None)))
             new.append(ast.For(target=ast.Name(id='_once', ctx=ast.Store()),
                                iter=ast.Tuple(elts=[ast.Constant(value=None)], ctx=ast.Load()), body=inner, orelse=[]))
-        for n in new:
-            ast.copy_location(n, stmt)
+        for k_, n in enumerate(new):
             for x in ast.walk(n):
-                if not hasattr(x, 'lineno'):
-                    ast.copy_location(x, stmt)
+                # the inlined statements sit where the call was (their own line numbers belong to the helper's old place); keep their
+                # order by a fractional offset that stays below the next line
+                if hasattr(x, 'lineno') or isinstance(x, (ast.stmt, ast.expr)):
+                    x.lineno = stmt.lineno
+                    x.end_lineno = getattr(stmt, 'end_lineno', stmt.lineno)
+                    x.col_offset = getattr(stmt, 'col_offset', 0)
+                    x.end_col_offset = getattr(stmt, 'end_col_offset', 0)
             ast.fix_missing_locations(n)
         lst[i:i + 1] = new
         home.remove(helper)
